@@ -144,6 +144,19 @@ LongCases ==
    /\ LET I == T("i64", <<n>>, [k \in 1..n |-> (k * 7919) % (2 * n + 1)]) IN P(CaseRec("long", "Gather", <<>>, <<V, I>>, SemGather(V, I, <<>>), <<"value", "long">>))
    /\ LET C == Iota("f32", <<n, 1>>, 0) S == I64(<<n, 2>>) IN P(CaseRec("long", "Expand", <<>>, <<C, S>>, SemExpand(C, S), <<"value", "long">>))
 
+\* inputs without elements (extent 0 along the concatenation axis): they contribute nothing, but they are inputs all the same - a
+\* mismatch on another axis is refused; a consistent request is answered with the others' elements, or refused (the tensor
+\* library cannot address an empty range)
+ZeroExtentConcatCases ==
+   LET E(shape) == T("f32", shape, <<>>) A == Iota("f32", <<2, 3>>, 0) B == Iota("f32", <<3, 2>>, 10) C == Iota("f32", <<1, 3>>, 20) IN
+   /\ P(CaseRec("concat", "Concat", <<AI("axis", 0)>>, <<A, E(<<0, 5>>)>>, MustError, <<"invalid", "zero_extent_mismatch">>))
+   /\ P(CaseRec("concat", "Concat", <<AI("axis", 0)>>, <<E(<<0, 5>>), A>>, MustError, <<"invalid", "zero_extent_mismatch">>))
+   /\ P(CaseRec("concat", "Concat", <<AI("axis", -1)>>, <<B, E(<<4, 0>>)>>, MustError, <<"invalid", "zero_extent_mismatch">>))
+   /\ P(CaseRec("concat", "Concat", <<AI("axis", 0)>>, <<C, E(<<0, 2>>), A>>, MustError, <<"invalid", "zero_extent_mismatch">>))
+   /\ P(CaseRec("concat", "Concat", <<AI("axis", 1)>>, <<A, E(<<3, 0>>)>>, MustError, <<"invalid", "zero_extent_mismatch">>))
+   /\ P(CaseRec("concat", "Concat", <<AI("axis", 0)>>, <<A, E(<<0, 3>>)>>, ValueOrError(<<A>>), <<"value_or_error", "zero_extent_consistent">>))
+   /\ P(CaseRec("concat", "Concat", <<AI("axis", 1)>>, <<E(<<2, 0>>), A>>, ValueOrError(<<A>>), <<"value_or_error", "zero_extent_consistent">>))
+
 \* tiling law (Outcome.tla): operators that leave the leading axis in place treat its rows independently
 TileEmit(op, attrs, ins, a, S, Sem(_)) ==
    TileLaw(Sem, ins, S) => P(CaseRec("tile", op, attrs, ins, a, <<"value", "tile_law">>) @@ [tile |-> TileField(S)])
@@ -177,7 +190,7 @@ Emit ==
         [] st.fam = "slicex"    -> SliceExtremeCases(st.shape) /\ SliceInvalidCases(st.shape)
         [] st.fam = "gather"    -> (st.axis \in (-Len(st.shape) - 1)..Len(st.shape) => GatherCases(st.shape, st.axis))
         [] st.fam = "expand"    -> ExpandCases(st.shape, st.target)
-        [] st.fam = "dtypes"    -> DtypeCases(st.dt) /\ (st.dt = "f32" => LongCases /\ SpecialValueCases /\ TileIndexCases)
+        [] st.fam = "dtypes"    -> DtypeCases(st.dt) /\ (st.dt = "f32" => LongCases /\ SpecialValueCases /\ TileIndexCases /\ ZeroExtentConcatCases)
    /\ st' = [st EXCEPT !.done = TRUE]
 Next == Emit
 Spec == Init /\ [][Next]_st
